@@ -128,14 +128,15 @@ class Encoding(ABC):
 
     def __hash__(self):
         """
-        Get the hash of the current transformation matrix.
+        Get the hash of the data and the shape it is read with.
 
         Returns
         ------------
-        hash : str
-          Hash of transformation matrix
+        hash : int
+          Hash of the encoded array
         """
-        return self._data.__hash__()
+        # the same stored data read with another shape is another array
+        return hash((self._data.__hash__(), tuple(int(s) for s in self.shape)))
 
     @property
     def ndims(self):
@@ -848,6 +849,10 @@ class TransposedEncoding(LazyIndexMap):
     def _transpose(self, perm):
         raise RuntimeError("Should not be here")
 
+    def __hash__(self):
+        # a view hashes like what it wraps unless the permutation is included
+        return hash((self._data.__hash__(), tuple(self._perm.tolist())))
+
     @property
     def perm(self):
         return self._perm
@@ -921,6 +926,10 @@ class FlippedEncoding(LazyIndexMap):
 
     def _from_base_indices(self, base_indices):
         return self._to_base_indices(base_indices)
+
+    def __hash__(self):
+        # a view hashes like what it wraps unless the flipped axes are included
+        return hash((self._data.__hash__(), self._axes))
 
     @property
     def shape(self):
